@@ -95,6 +95,7 @@ class RecWorld(ConnWorld):
         self.streak_succ = 0  # failures since the last success only
         self.streak_auth = False
         self.stopped_done_at: float | None = None
+        self.last_stopped_at: float | None = None  # the latest instant at which the manager was stopped (stop() had returned)
         self.rl_started = False
         self.counter = 0
         self.in_session = False
@@ -229,13 +230,19 @@ class RecWorld(ConnWorld):
             return "start"
         if any(abs(t - x) < EPS for t in self.record_instants for x in instants):
             return "mdns"
+        # a stop() that has returned ends everything that was pending: what happened strictly before it justifies nothing afterwards
+        cut = -1.0 if self.last_stopped_at is None else self.last_stopped_at - EPS
         for t, expected in self.ends:
+            if t < cut:
+                continue
             if not expected and any(abs(t - x) < EPS for x in instants):
                 return "unexpected-end"
             if expected and any(abs(t + 5.0 - x) < EPS for x in instants):
                 return "expected-end+5"
         for x in instants:
             for f, n, auth, auth_before in reversed(self.failures):
+                if f < cut:
+                    continue
                 for w in self.allowed_waits(n, auth, auth_before):
                     if abs(f + w - x) < EPS:
                         between = [y for y in self.successes if f + EPS < y < x - EPS] + [y[0] for y in self.failures if f + EPS < y[0] < x - EPS]
@@ -288,6 +295,7 @@ class RecWorld(ConnWorld):
             elif self.last_start_seq < self.stop_seq.get(name, 0):
                 # stop() returned and no start() was issued after this stop() was issued: the manager is stopped
                 self.stopped_done_at = self.loop.time()
+                self.last_stopped_at = self.loop.time()
                 self.rl_started = False
                 self.check_stopped()
         elif kind == "rl_start":
@@ -544,8 +552,9 @@ class RecHarness:
             last_fail = w.failures[-1] if w.failures else None
             mon = (
                 w.streak, w.streak_auth,
-                None if last_fail is None else (round(now - last_fail[0], 6), last_fail[1], last_fail[2], last_fail[3]),
-                tuple((round(now - t, 6), e) for t, e in w.ends if now - t <= 5.0 + EPS),
+                None if last_fail is None else (round(now - last_fail[0], 6), last_fail[1], last_fail[2], last_fail[3],
+                                                w.last_stopped_at is not None and last_fail[0] < w.last_stopped_at - EPS),
+                tuple((round(now - t, 6), e, w.last_stopped_at is not None and t < w.last_stopped_at - EPS) for t, e in w.ends if now - t <= 5.0 + EPS),
                 any(abs(t - now) < EPS for t in w.start_instants), any(abs(t - now) < EPS for t in w.record_instants),
                 any(abs(t - now) < EPS for t in w.successes),
                 # a success/failure strictly between the last failure and now matters for later justification
@@ -741,6 +750,8 @@ def run(tier: str, seed: int) -> Result:
     res.assumptions = [
         "an attempt start is the creation of a socket (the address is an IP literal, one socket per attempt)",
         "'earlier/later' means strictly earlier/later virtual time; events at one instant do not invalidate each other's justification",
+        "a stop() that has returned ends everything that was pending: failures and session endings strictly before it justify no attempt "
+        "after a later start()",
         "n counts failures reported through on_connect_error since the last on_connect or start(); an attempt the manager cancels itself in order "
         "to start a new one is counted if (and only if) it is reported through on_connect_error",
         "once an authentication/encryption error occurred in a failure streak, 60 s or the formula's value is accepted for later failures of that streak",
